@@ -165,7 +165,7 @@ def run(ctx):
         "mutated_trees_and_byte_cases": summ.get("cases", 0),
         "distinct_nontrivial": summ.get("nontrivial", 0),
         "rule": "evaluation = one guarded LoadNetwork call on one input (encoding, bytes). Inputs: valid saves of generated "
-                "networks mutated at the protobuf-tree level by 1-3 of 28 mutation kinds (incl. huge size / count fields alone and jointly, loaded in memory-limited one-shot children) and written in wire, JSON and text; "
+                "networks mutated at the protobuf-tree level by 1-3 of 29 mutation kinds (incl. huge size / count fields alone and jointly, loaded in memory-limited one-shot children) and written in wire, JSON and text; "
                 "byte/character-level mutants of valid saves per encoding; random byte strings; every input of length 0 and 1, the 2-byte inputs (all of them in the thorough tier), 1-3 byte prefixes of valid saves and of a byte order mark. Every successfully loaded network is also used under recover (GetCANID, builder operations, Decode, ExportBus, String, SaveNetwork). "
                 "non-trivial = distinct input that the decoder accepts (it reaches the loader proper and is also run through "
                 "the Coq loader model)",
